@@ -9,6 +9,7 @@ import (
 	"math"
 	"math/big"
 	"net/url"
+	"reflect"
 	"regexp"
 	"strings"
 	"time"
@@ -130,31 +131,14 @@ func AddStandardFilters(fd FilterDictionary) { //nolint: gocyclo
 			}
 			return divInt(int64(a), int64(b))
 		}
-		switch q := b.(type) {
-		case int:
-			return divInt(int64(a), int64(q))
-		case int8:
-			return divInt(int64(a), int64(q))
-		case int16:
-			return divInt(int64(a), int64(q))
-		case int32:
-			return divInt(int64(a), int64(q))
-		case int64:
-			return divInt(int64(a), q)
-		case uint:
-			return divUint(a, uint64(q))
-		case uint8:
-			return divInt(int64(a), int64(q))
-		case uint16:
-			return divInt(int64(a), int64(q))
-		case uint32:
-			return divInt(int64(a), int64(q))
-		case uint64:
-			return divUint(a, q)
-		case float32:
-			return divFloat(a, float64(q))
-		case float64:
-			return divFloat(a, q)
+		// the divisor is an integer or a float of any width, also of a named type
+		switch q := reflect.ValueOf(b); {
+		case q.IsValid() && q.CanInt():
+			return divInt(int64(a), q.Int())
+		case q.IsValid() && q.CanUint():
+			return divUint(a, q.Uint())
+		case q.IsValid() && q.CanFloat():
+			return divFloat(a, q.Float())
 		default:
 			return nil, fmt.Errorf("invalid divisor: '%s'", values.Sprint(b))
 		}
